@@ -23,6 +23,7 @@ type c08Task struct {
 	Named  string `json:"named_topic,omitempty"`
 	Anon   bool   `json:"anon_topic"`
 	SCO    bool   `json:"state_changes_only"`
+	Bare   bool   `json:"no_handler_on_named_topic,omitempty"` // nothing but the task itself ever touches the named topic
 	Script string `json:"script"`
 }
 
@@ -55,6 +56,7 @@ func c08Gen(c *Ctx) *c08Scenario {
 		switch g.Intn(3) {
 		case 0:
 			t.Named = fmt.Sprintf("named%d", i)
+			t.Bare = g.Bool()
 		case 1:
 			t.Anon = true
 		default:
@@ -211,7 +213,16 @@ func c08Run(c *Ctx, sc *c08Scenario, cfg simrt.Config, path string, resume []int
 				}
 			}
 		}
+		bare := map[string]bool{}
+		for _, t := range sc.Tasks {
+			if t.Bare {
+				bare[t.Named] = true
+			}
+		}
 		for _, tp := range topics {
+			if bare[tp] {
+				continue // the topic only comes into existence with the first event the task collects on it
+			}
 			r := &harness.RecHandler{Name: tp}
 			recs[tp] = r
 			d.Alert.RegisterAnonHandler(tp, r)
@@ -346,19 +357,19 @@ func runC08(c *Ctx) Verdict {
 		sort.Ints(positions)
 	}
 	sc.CrashAt = positions
-	for _, b := range positions {
+	checkPos := func(b int) (Verdict, bool) {
 		l1 := c08Run(c, sc, cfg, "", zero, b)
 		if l1.res.Status != simrt.StatusCrash {
 			if v, bad := WorldVerdict(l1.res, false); bad {
-				return v
+				return v, true
 			}
 			// the boundary was not reached in this execution (schedule differs after an earlier divergence): skip
 			c.Counters["obs.crash_boundary_not_reached"]++
-			continue
+			return Verdict{}, false
 		}
 		durable, err := c08Durable(l1.copyPath)
 		if err != nil {
-			return Fail("durable/corrupt", "crash at boundary %d: the durable copy cannot be read: %v", b, err)
+			return Fail("durable/corrupt", "crash at boundary %d: the durable copy cannot be read: %v", b, err), true
 		}
 		cfg2 := cfg
 		cfg2.Seed = cfg.Seed ^ uint64(b)*0x9E3779B97F4A7C15
@@ -368,23 +379,40 @@ func runC08(c *Ctx) Verdict {
 		if v, bad := WorldVerdict(l2.res, false); bad {
 			v.Detail = fmt.Sprintf("[second life after a crash at storage boundary %d of %d] ", b, base.bounds) + v.Detail
 			v.Shape = shape
-			return v
+			return v, true
 		}
 		if l2.verdict.Class != "" {
 			l2.verdict.Detail = fmt.Sprintf("[crash at storage boundary %d of %d] ", b, base.bounds) + l2.verdict.Detail
-			return l2.verdict
+			return l2.verdict, true
 		}
 		for _, t := range sc.Tasks {
 			for _, tp := range t.topics() {
 				for h, vs := range sc.Hosts {
 					id := fmt.Sprintf("h%d", h)
-					// (1) restored level == last level the durable copy recorded (absent => OK)
+					// (0) the storage holds the level of the last point that was fully processed before the crash, give or
+					// take the point in flight: points are written one at a time, so of host h's points everything before
+					// #acked-1 has been processed completely, and at most #acked is under way
 					dl := durable[tp][id]
+					allowed := map[alert.Level]bool{}
+					for k := l1.acked[h] - 1; k <= l1.acked[h]+1; k++ {
+						switch {
+						case k <= 0:
+							allowed[alert.OK] = true
+						case k <= len(vs):
+							allowed[c08Level(vs[k-1])] = true
+						}
+					}
+					if !allowed[dl] {
+						v := Fail("durable/stale", "crash at boundary %d: %d points of id %s (values %v) had been acknowledged, all but the last of them completely processed, yet the storage holds level %v for topic %s: a restart at this moment resumes the id at a level it left at least one fully processed event ago", b, l1.acked[h], id, vs, dl, tp)
+						v.Shape = shape
+						return v, true
+					}
+					// (1) restored level == last level the durable copy recorded (absent => OK)
 					rl := l2.restored[tp][id]
 					if dl != rl {
 						v := Fail("restore/level", "crash at boundary %d: storage held level %v for topic %s id %s, the restarted alert service reports %v", b, dl, tp, id, rl)
 						v.Shape = shape
-						return v
+						return v, true
 					}
 					// (2) final state: level of the last point processed after the restart, else the restored level
 					want := rl
@@ -397,7 +425,7 @@ func runC08(c *Ctx) Verdict {
 						// the anonymous/named pair of one node reconcile through restoreEvent on the first point
 						v := Fail("final-state", "crash at boundary %d: topic %s id %s ends at %v, an uninterrupted run of the remaining data (from point #%d, values %v) ends at %v; restored level was %v; node errors: %v", b, tp, id, got, l1.acked[h], vs, want, rl, l2.errs)
 						v.Shape = shape
-						return v
+						return v, true
 					}
 					// (3) handlers: told of every level the ID ends in that differs from the last level told before the crash
 					told1 := l1.told[tp][id]
@@ -406,7 +434,7 @@ func runC08(c *Ctx) Verdict {
 					if len(told1) > 0 {
 						last = told1[len(told1)-1]
 					}
-					if got != last {
+					if got != last && !t.Bare {
 						found := false
 						for _, l := range told2 {
 							if l == got {
@@ -417,7 +445,7 @@ func runC08(c *Ctx) Verdict {
 							v := Fail("handler/silent-miss", "crash at boundary %d: handlers of topic %s were last told %v for id %s before the crash; the id ends at %v after the restart but no handler was told so (told after restart: %v; restored level %v; state-changes-only=%v)", b, tp, last, id, got, told2, rl, t.SCO)
 							v.Shape = map[string]interface{}{"crash_boundary_kind": shape["crash_boundary_kind"], "state_changes_only": t.SCO, "points_remaining_after_crash": len(vs) - l1.acked[h],
 								"handlers_and_storage_agreed_at_crash": last == dl, "anon_and_named_agreed_at_crash": c08PairAgrees(t, durable, id)}
-							return v
+							return v, true
 						}
 					}
 					// a recovery is announced in the second life only if the restored level was non-OK or a non-OK level was told first.
@@ -433,7 +461,7 @@ func runC08(c *Ctx) Verdict {
 						if l == alert.OK && !nonOK {
 							v := Fail("handler/phantom-recovery", "crash at boundary %d: handlers of topic %s were told a recovery for id %s although the restored level was OK and no alert preceded it in the second life (told: %v)", b, tp, id, told2)
 							v.Shape = shape
-							return v
+							return v, true
 						}
 						if l != alert.OK {
 							nonOK = true
@@ -451,13 +479,19 @@ func runC08(c *Ctx) Verdict {
 					if l1.acked[h] < len(vs) && l2.final[tps[0]][id] != l2.final[tps[1]][id] {
 						v := Fail("anon-named-disagree", "crash at boundary %d: after the restart the anonymous topic %s holds %v and the named topic %s holds %v for id %s", b, tps[0], l2.final[tps[0]][id], tps[1], l2.final[tps[1]][id], id)
 						v.Shape = shape
-						return v
+						return v, true
 					}
 				}
 			}
 		}
+		return Verdict{}, false
 	}
-	return Pass()
+	for _, b := range positions {
+		if v, bad := checkPos(b); bad && c.Report(v) {
+			return v
+		}
+	}
+	return c.Finish()
 }
 
 // c08PairAgrees reports whether the two topics of one alert node held the same level for id in the durable copy.
@@ -473,7 +507,7 @@ func init() {
 	Register(&Prop{
 		ID:  "C08",
 		Run: runC08,
-		Rule: "case = 1-2 alert tasks (named topic, anonymous topic via a handler, or both on one node; with/without stateChangesOnly) x 1-3 alert IDs with seeded level sequences (2-8/14 points) processed one point at a time; a base run counts the storage transaction boundaries B, then the same seed is re-executed once per crash position (every boundary before/after each commit in thorough and when B<=10, else a seeded sample of 10): crash there, restart on a byte copy of the Bolt file, restart the tasks, feed the remaining data; " +
+		Rule: "case = 1-2 alert tasks (named topic - with a recording handler or touched by nothing but the task -, anonymous topic via a handler, or both on one node; with/without stateChangesOnly) x 1-3 alert IDs with seeded level sequences (2-8/14 points) processed one point at a time; a base run counts the storage transaction boundaries B, then the same seed is re-executed once per crash position (every boundary before/after each commit in thorough and when B<=10, else a seeded sample of 10): crash there, restart on a byte copy of the Bolt file, restart the tasks, feed the remaining data; " +
 			"non-trivial = the base run had at least one storage boundary; distinct = distinct (scenario, interleaving signatures) tuples",
 		Real:        []string{"services/alert Service (Open/loadSavedTopicStates, Collect, persistEventState/clearHistory, restoreTopic, EventState, UpdateEvent)", "alert.Topics", "AlertNode (restoreEventState/restoreEvent, determineLevel, alertState)", "services/storage Bolt adapter + real bbolt file", "TaskMaster, httpd write endpoint, edges"},
 		Stub:        []string{"harness StorageService wrapper: crash = abandon the world at a transaction boundary + byte copy of the Bolt file", "recording alert.Handler on every topic", "tasks are restarted by the harness (task_store restart is C14)", "durable levels are read back with bbolt directly, not through Kapacitor"},
